@@ -29,6 +29,19 @@ theorem conventions_spec {α : Type} [DecidableEq α] (reg ep : List α) :
   ⟨nodup_conventions reg ep, mem_conventions reg ep, pairwise_idxOf_dedupAux _ _,
    dedupAux_sublist _ _, conventions_registered_first reg ep⟩
 
+/-- `entry_point_conventions()`: each class that some entry point loads to, exactly once, in
+entry-point order; entry points that fail to load or load to something else are skipped. -/
+theorem entry_points_spec (eps : List EntryPoint) :
+    (scanEntryPoints eps).Nodup
+    ∧ (∀ c, c ∈ scanEntryPoints eps ↔ EntryPoint.cls c ∈ eps)
+    ∧ List.Sublist ((scanEntryPoints eps).map EntryPoint.cls) eps
+    ∧ (scanEntryPoints eps).Pairwise (fun a b =>
+        (eps.filterMap EntryPoint.cls?).idxOf a < (eps.filterMap EntryPoint.cls?).idxOf b) := by
+  refine ⟨nodup_dedupAux _ _, ?_, ?_, pairwise_idxOf_dedupAux _ _⟩
+  · intro c
+    simp [scanEntryPoints, mem_dedupAux, mem_filterMap_cls]
+  · exact ((dedupAux_sublist _ _).map _).trans (filterMap_cls_sublist eps)
+
 /-- `get_dataset_convention` is `guess_convention` over `registry.conventions` with the
 `check_dataset` of each class applied to the dataset's feature record. -/
 theorem detect_eq_guess (env : SynthEnv) (reg : List Cls) (f : Features) :
